@@ -107,7 +107,9 @@ impl<Args, T: CallMatch<Args>> ops::DerefMut for RemoveFunctionCallProcessor<Arg
 
 impl<Args, T: CallMatch<Args>> NodeProcessor for RemoveFunctionCallProcessor<Args, T> {
     fn process_statement(&mut self, statement: &mut Statement) {
-        if let Statement::Call(call) = statement {
+        // the replacement can itself be a matched call (e.g. `assert(assert(value))`) and the
+        // visitor does not process the replaced node again
+        while let Statement::Call(call) = statement {
             if call.get_method().is_none()
                 && self
                     .matcher
@@ -121,12 +123,15 @@ impl<Args, T: CallMatch<Args>> NodeProcessor for RemoveFunctionCallProcessor<Arg
                 } else {
                     DoStatement::default().into()
                 };
+            } else {
+                break;
             }
         }
     }
 
     fn process_expression(&mut self, expression: &mut Expression) {
-        if let Expression::Call(call) = expression {
+        // same as for statements: keep going while the replacement is a matched call
+        while let Expression::Call(call) = expression {
             if call.get_method().is_none()
                 && self
                     .matcher
@@ -158,6 +163,8 @@ impl<Args, T: CallMatch<Args>> NodeProcessor for RemoveFunctionCallProcessor<Arg
                         Expression::nil()
                     };
                 }
+            } else {
+                break;
             }
         }
     }
